@@ -98,5 +98,11 @@ CLAIMS['C37'] = {
   'note': _TB + 'State structure (consumed entries 16..47, waiting keys 0..16) is enumerated, contents symbolic; the code depends on the consumed count only through its value mod 16 (assumption). Keyboard plumbing and the address arithmetic in machine.Memory are not covered. One defect found and fixed.',
 }
 
+CLAIMS['C14'] = {
+  'text': 'Proof of the core only: Program.renum builds the old->new map (lines from `old` onward get new, new+step, ... in order), accepts exactly when no kept line would be overwritten and no number exceeds 65529, rewrites the line-number fields and rebuilds the table; '
+          'Interpreter.renum_ makes an active ON ERROR trap and every event trap follow their lines (lines outside the range keep their number) and lets only Illegal function call escape. new/old/step symbolic over 4 concrete program shapes.',
+  'note': _TB + 'NOT proved: the token-stream scan that rewrites GOTO/GOSUB/THEN/... references inside the byte code, and behavioural equivalence of the renumbered program. One defect found and fixed (KeyError for a trap line outside the range).',
+}
+
 NOT_APPLICABLE = {
 }
